@@ -53,6 +53,7 @@ def events(env, tier):
     return ev
 
 
+@common.guarded("C02")
 def check_script(sc):
     """returns None (agree), 'ood', or (key, detail)"""
     text = lang.render(sc)
